@@ -172,7 +172,7 @@ def run(report: Report, tier, seed):
         if not mm:
             continue
         rec = {"input": {"spec": s}, "mismatches": mm[:3], "program": r.get("program"), "teal": r["teals"]}
-        if all(m["kind"] == "stack" and e2e.optimizer_on(m["options"], s["version"]) for m in mm) and r.get("known_multistore"):
+        if all(e2e.optimizer_on(m["options"], s["version"]) for m in mm) and r.get("known_multistore"):
             known.append(rec)
         else:
             fails.append(rec)
